@@ -592,6 +592,9 @@ func checkStreams(run *MixRun) {
 				break
 			}
 		}
+		if r.COverrun {
+			e.Violate(prop, "client-recv-overrun", site, "call %d: RecvMsg kept returning messages (%d received, the handler sent %d)", id, len(r.CGot), r.HSent)
+		}
 		if readsAll(c.CProg) {
 			if len(r.CGot) != r.HSent {
 				e.Violate(prop, "client-recv-count", site, "call %d: client received %d messages, handler sent %d (final=%v)", id, len(r.CGot), r.HSent, r.CFinal)
